@@ -653,4 +653,6 @@ func runC13(ctx *core.Ctx) {
 		ctx.Add("trav.proj", c13ProjArgs{Services: svcs, Disabled: []string{"off1", "off2"}, Reverse: ctx.Rng.Intn(2) == 0, Cycle: ctx.Rng.Intn(5) == 0})
 		ctx.Count("project-with-missing-dependencies")
 	}
+	// 5. the glue around walk (CollectInDependencyOrder): plan correspondence + oracle on general projects with options
+	c13PlanCases(ctx)
 }
